@@ -30,6 +30,9 @@ import VotelibProofs.Lemmas.ShapeConvert
 import VotelibProofs.Lemmas.ShapeSimple
 import VotelibProofs.Lemmas.ShapeRankedT2
 import VotelibProofs.Lemmas.ShapeSTV
+import VotelibProofs.Lemmas.ShapeCardinal
+import VotelibProofs.Lemmas.ShapeApprovalPAV
+import VotelibProofs.Lemmas.ShapeQuotaSubtract
 namespace VL.C08
 open VL
 
